@@ -750,3 +750,97 @@ def gen_C17(rng, count, tier):
         if rng.random() < 0.7:
             toks.append("destroy")
         yield ("lauth", " ".join(toks))
+
+
+# ------------------------------------------------------------------------------------ C12 / C13
+
+PSEG = ["a", "api", "x%20y", "caf%C3%A9", "a%0d%0aInjected:%20x", "%3F", "%23", "a+b", "%25", "%2f", "v1", "", "b;c", "a=b", "%41"]
+PHDR = [b"Host: example", b"Accept: */*", b"X-A: 1", b"x-a: 2", b"X-Forwarded-For: 9.9.9.9", b"X-Forwarded-For: 8.8.8.8, 7.7.7.7",
+        b"X-Real-IP: 5.5.5.5", b"Cookie: a=b; c=d", b"X-Empty: x", b"Connection: close"]
+
+
+def proxy_request(rng, with_body=True):
+    m = pick(rng, [b"GET", b"POST", b"PUT", b"DELETE", b"HEAD", b"OPTIONS"])
+    t = "/" + "/".join(pick(rng, PSEG) for _ in range(rng.randrange(0, 4)))
+    if rng.random() < 0.5:
+        t += "?" + pick(rng, ["q=1", "a=b&c=d", "x=%20y", "", "k", "a=b%26c", "u=http://h/p?z=1"])
+    hs = []
+    for _ in range(rng.randrange(0, 5)):
+        h = pick(rng, PHDR)
+        hs.append(h)
+    n = pick(rng, [0, 0, 3, 10, 40]) if with_body else 0
+    body = bytes((j * 5 + 1) % 251 for j in range(n))
+    if n or rng.random() < 0.3:
+        hs.append(b"Content-Length: %d" % n)
+    head = m + b" " + t.encode() + b" HTTP/1.1" + b"".join(b"\r\n" + h for h in hs)
+    return head, body
+
+
+def gen_C12(rng, count, tier):
+    for i in range(count):
+        head, body = proxy_request(rng)
+        stream = head + b"\r\n\r\n" + body
+        h = len(head)
+        segs = cuts(rng, stream, marks=(h + 4, h + 4 + len(body) // 2, h + 2))
+        evs = ["new"]
+        # turns between segments decide whether body bytes arrive before or after `connected`
+        for s in segs:
+            evs.append("feed:" + hx(s))
+            if rng.random() < 0.4:
+                evs.append("turn")
+        evs += ["turn", "turn"]
+        yield ("proxy", " ".join(evs))
+
+
+UP_HDRS = [b"Content-Type: text/plain", b"Set-Cookie: a=1", b"Set-Cookie: b=2", b"X-Up: v", b"x-up: w", b"Content-Length: 5", b"Server: up", b"X-Pad:   padded  "]
+
+
+def upstream_response(rng):
+    k = rng.randrange(12)
+    code = pick(rng, [b"200", b"404", b"301", b"100", b"599", b"204", b"500"])
+    reason = pick(rng, [b"OK", b"Not Found", b"", b"Weird Reason Text", b"OK"])
+    ver = pick(rng, [b"HTTP/1.1", b"HTTP/1.0", b"HTTP/1.1"])
+    hs = [pick(rng, UP_HDRS) for _ in range(rng.randrange(0, 5))]
+    first = ver + b" " + code + b" " + reason
+    if k == 0:
+        first = ver + b" " + pick(rng, [b"99", b"600", b"abc", b"", b"-200", b"1000"]) + b" " + reason
+    elif k == 1:
+        first = ver + b" " + code                      # two parts only
+    elif k == 2:
+        hs.append(b"NoColonLine")
+    body = bytes((j * 3 + 2) % 251 for j in range(pick(rng, [0, 1, 5, 30, 700])))
+    if rng.random() < 0.2:
+        body = b"\r\n\r\n" + body
+    return first + b"".join(b"\r\n" + h for h in hs) + b"\r\n\r\n", body
+
+
+def gen_C13(rng, count, tier):
+    for i in range(count):
+        head, body = proxy_request(rng, with_body=False)
+        evs = ["new", "feed:" + hx(head + b"\r\n\r\n" + body), "turn"]
+        toks = []
+        r = rng.random()
+        if r < 0.1:
+            toks.append("refuse")
+            evs += ["turn"]
+        else:
+            uh, ub = upstream_response(rng)
+            whole = uh + ub
+            mode = rng.randrange(6)
+            if mode == 0:
+                parts = [whole]
+            elif mode == 1:
+                parts = cuts(rng, whole, marks=(len(uh), len(uh) - 2, len(uh) - 4, 9, 12))
+            elif mode == 2:
+                parts = [whole[:rng.randrange(0, len(uh))]]          # ends before a complete head
+            else:
+                parts = cuts(rng, whole, marks=(len(uh),))
+            for pce in parts:
+                if pce:
+                    evs += ["up:" + hx(pce), "turn"]
+            if mode == 2 or rng.random() < 0.6:
+                evs += ["upclose", "turn"]
+            if rng.random() < 0.2:
+                evs += ["up:" + hx(b"late"), "turn"]
+        evs += ["ackall", "turn"]
+        yield ("proxy", " ".join(toks + evs))
